@@ -34,7 +34,7 @@ def outcome_of(sim, case):
 def machine(tier, ctx):
     import sys
     return hist.make_machine(sys.modules[__name__], tier, ctx, checks=CHECKS,
-                             weights=dict(snapshot=5, delete=2, clean=1, restore=0, list=0, concurrent=1, add_user=2))
+                             weights=dict(snapshot=5, delete=2, clean=1, restore=0, list=0, concurrent=1, add_user=2, repeat=3))
 
 
 def run_case(case):
